@@ -124,9 +124,12 @@ const DERIVES: [&str; 8] = [
     "Debug", "Clone", "::core::cmp::PartialEq", "Eq", "::codec::Encode", "::codec::Decode",
     "serde::Serialize", "::core::cmp::Ord",
 ];
-const ATTRS: [&str; 5] = [
+// several attributes share a path (`serde`, `cfg_attr`): their order is decided by the arguments
+const ATTRS: [&str; 9] = [
     "#[allow(dead_code)]", "#[serde(rename_all = \"camelCase\")]", "#[repr(C)]",
     "#[codec(crate = ::codec)]", "#[cfg_attr(feature = \"std\", derive(Hash))]",
+    "#[serde(deny_unknown_fields)]", "#[serde(bound = \"\")]", "#[cfg_attr(test, derive(PartialOrd))]",
+    "#[serde(crate = \"::serde\")]",
 ];
 
 pub fn item_paths(reg: &PortableRegistry) -> Vec<Vec<String>> {
